@@ -88,11 +88,47 @@ def E1(m, R):
         if w is None:
             problems.append('an instance is created at L%d without its wrapped AnsiString being set in the same block' % st.lineno)
             continue
+        def pair_ok(pv, wvs):
+            # str.__new__(cls, X) renders X itself, so X and str(X) are the same payload
+            pvx = re.match(r'^str\((.+)\)$', pv).group(1) if (pv and re.match(r'^str\((.+)\)$', pv)) else pv
+            return any(pvx == wv or (pvx is not None and re.match(r'^\w+$', pvx) and wv == '%s.%s' % (pvx, ro.WRAPPED)) for wv in wvs)
         pv = norm(payload) if payload is not None else None
         wv = norm(w.value)
-        # str.__new__(cls, X) renders X itself, so X and str(X) are the same payload
-        pvx = re.match(r'^str\((.+)\)$', pv).group(1) if (pv and re.match(r'^str\((.+)\)$', pv)) else pv
-        ok = pvx == wv or (pvx is not None and re.match(r'^\w+$', pvx) and wv == '%s.%s' % (pvx, ro.WRAPPED))
+        ok = pair_ok(pv, [wv])
+        if not ok and (isinstance(payload, ast.Name) or isinstance(w.value, ast.Name)):
+            # payload and / or wrapped object named first, possibly per branch: along every path to the creation, what the names were last bound to
+            from ..cfg import paths as _paths, default_transfer as _dt
+
+            def transfer(node, env):
+                _dt(node, env)
+                x = node.stmt
+                if node.kind == 'stmt' and isinstance(x, ast.Assign) and len(x.targets) == 1 and isinstance(x.targets[0], ast.Name):
+                    env['$' + x.targets[0].id] = x.value
+            target_nd = next((nd for nd in cfg.nodes if nd.stmt is st), None)
+            try:
+                pp = _paths(cfg, cfg.entry, lambda x: x is target_nd, transfer=transfer, max_visits=1, limit=20000) if target_nd is not None else []
+            except Exception:
+                pp = []
+            reached = [(p_, e_) for p_, e_ in pp if p_ and p_[-1] is target_nd]
+
+            def resolve(e_, env, depth=4):
+                out = [norm(e_)]
+                cur = e_
+                for _k in range(depth):
+                    if isinstance(cur, ast.Name) and ('$' + cur.id) in env:
+                        cur = env['$' + cur.id]
+                        out.append(norm(cur))
+                    else:
+                        break
+                return out
+            ok = bool(reached)
+            for p_, env in reached:
+                pvs = resolve(payload, env)
+                wvs = resolve(w.value, env)
+                if not any(pair_ok(x_, wvs) for x_ in pvs):
+                    ok = False
+                    pv, wv = pvs[-1], wvs[-1]
+                    break
         if not ok:
             problems.append('payload %s but wrapped object %s: the str payload is not the rendering of the wrapped object' % (pv, wv))
     # every return returns an instance created above
@@ -130,9 +166,12 @@ def E1(m, R):
 def E2(m, R):
     H = get_heap(m)
     A = m.cls('AnsiString')
+    from ..inline import KNOWN_PRIVATE
     for name, f in A.methods.items():
         if 'inplace' not in f.own_params() + f.kwonly:
             continue
+        if name.startswith('_') and not name.startswith('__') and ('AnsiString', name) not in KNOWN_PRIVATE:
+            continue        # a newly extracted private helper: its code is judged where it was inlined (the public methods that call it)
         for ip in (False, True):
             a = H.analyse(f.qual, {'inplace': ip})
             cons = 'AnsiString.%s inplace=%s' % (name, ip)
